@@ -8,6 +8,6 @@ Require Import LV.SolveCount.CountModel.
 Extraction Language OCaml.
 Set Extraction KeepSingleton.
 Extraction "models_solvecount.ml"
-  init add_std solve set_m_error take_cal count_deficient solve_path sys_count
-  unknowns systems t_terms alloc_ok x_length
+  init add_std solve set_m_error take_cal count_deficient solve_path is_trl sys_count
+  unknowns systems t_terms alloc_ok x_length unknown_list pv_get
   single_reflect double_reflect through line mapped_matrix.
